@@ -123,8 +123,10 @@ func evaluateOperatorValue
   atreturn quotient: result1 == nil && result0 != nil && !leftIsNull && !rightIsNull && leftOk && rightOk && node.Value == "/" ==> rightFloat != 0.0 && result0 == boxof(leftFloat / rightFloat, float64)
   atreturn operands-are-converted-by-the-shared-rule: leftOk ==> leftFloat == convertToFloatSafe(left)
 
-extern evaluateNodeValueWithNull
+func evaluateNodeValueWithNull
   props C06 C13
+  option assumed_frame
+  atreturn a-column-is-null-exactly-when-it-is-absent-or-holds-null-flat-or-nested: node != nil && node.Type == TypeField && result2 == nil ==> (result1 <==> result0 == nil)
 
 func evaluateNodeWithNull
   props C06 C13
@@ -258,6 +260,8 @@ func parseUnaryExpression
   option safety
   recgroup exprparse
   decreases 16 * len(tokens) + 2
+  before parseUnaryExpression the-operand-of-a-unary-minus-is-itself-a-unary-expression-on-the-rest: tokens[0] == "-" && len($arg0) == len(tokens) - 1
+  before parsePrimaryExpression anything-else-is-a-primary-expression-on-the-same-tokens: tokens[0] != "-" && len($arg0) == len(tokens)
   ensures success-gives-a-node-and-consumes-input: result2 == nil ==> result0 != nil && len(result1) < len(tokens)
 
 func parsePowerExpression
